@@ -169,6 +169,16 @@ def _group(c):
         for idx in np.ndindex(*shp):
             sigs[idx] = gen.make_signal(np.random.default_rng([c['seed'], k] + list(idx)), family=['bursty', 'sum', 'asym'][sum(idx) % 3], fs=250, f0=10, n=500)['sig']
         axis = {'0': 0, '1': 1, 'a01': (0, 1), 'None': None}[f['axis']]
+        if (c['seed'] + k) % 2 == 0:
+            # a fit that is REJECTED half-way first (an axis the array's dimension does not allow, on the same array): whatever it leaves behind, the
+            # successful fit that follows must rebuild everything
+            try:
+                implutil.quiet(bg.fit, sigs, 250, (7.0, 13.0), axis=(1 if len(shp) == 1 else None), n_jobs=1)
+                return 'fit %d: an axis the array does not allow was accepted' % k
+            except ValueError:
+                pass
+            except Exception as e:
+                return 'fit %d: rejected fit raised %s instead of ValueError' % (k, type(e).__name__)
         try:
             implutil.quiet(bg.fit, sigs, 250, (7.0, 13.0), axis=axis, n_jobs=f['n_jobs'])
         except Exception as e:
@@ -348,6 +358,7 @@ def evaluate(ctx, cases):
                     elif exp_err is None and not bm.df_features.equals(exp):
                         fail('recompute_edges(%r) differs from the functional edge recomputation with lowered thresholds' % op[1])
                     if bm.thresholds != th_before: fail('recompute_edges modified the stored thresholds')
+                    if got_err and not bm.df_features.equals(prev): fail('a recompute_edges(%r) that raised left a half-updated table on the object' % op[1])
                     outcome = 'raised' if got_err else 'done'
                 elif op[0] == 'edit':
                     if isinstance(bm.thresholds, dict): bm.thresholds[op[1]] = op[2]
@@ -393,6 +404,8 @@ def evaluate(ctx, cases):
                             if not np.array_equal(getattr(bm, col), bm.df_features[col].values, equal_nan=True): fail('attribute %s is not the table column' % col)
                 elif op[0] == 'load':
                     df = implutil.quiet(compute_features, sigs[op[1]], fs, fr, threshold_kwargs={})
+                    if opi % 2 == 1:      # an externally cut table keeps its row labels (limit_df(reset_indices=False), a filtered selection)
+                        df = df.iloc[2:].copy()
                     bm.load(df, sigs[op[1]], fs, fr)
                     if bm.df_features is not df: fail('load did not store the given table')
                     loaded[opi] = df.copy(deep=True); mop = '[load,%d,%d]' % (opi, op[1])
@@ -415,8 +428,15 @@ def evaluate(ctx, cases):
     bad = {}
     for (idx, red), a in zip(marks, a1):
         got = {k: Fraction(v) for k, v in a}
-        if {k: Fraction(float(v)) if isinstance(v, (float, np.floating)) else Fraction(int(v)) for k, v in red.items()} != got and \
-           not all(abs(Fraction(float(red[k])) - got.get(k, 10**9)) < (Fraction(1, 10**6) if any(isinstance(v, np.float32) for v in red.values()) else Fraction(1, 10**12)) for k in red):      # (float32 thresholds are lowered in float32)
+        # EXACT: the object's float subtraction must be the correctly rounded value of the exact difference (IEEE), i.e. float(v - r) of the Lean
+        # rational - no rounding 'to kill float noise' (0.3 - 0.1 is 0.19999999999999998, not 0.2); float32 values are lowered in float32
+        def same(k):
+            v = red[k]
+            if k not in got: return False
+            if isinstance(v, np.float32): return abs(Fraction(float(v)) - got[k]) < Fraction(1, 10**6)
+            if isinstance(v, (float, np.floating)): return float(v) == float(got[k])
+            return Fraction(int(v)) == got[k]
+        if set(red) != set(got) or not all(same(k) for k in red):
             bad[idx] = 'reduce_thresholds differs from the Lean reduceThresholds: %r vs %r' % (red, a)
     j = 0
     for i, r in enumerate(results):
